@@ -27,7 +27,7 @@ package modfile
 //@ func (*FileSyntax).addLine
 //@   trusted "statement-list surgery (type switches over Expr, in-place block conversion); summary of its documented effect"
 //@   requires x != nil && len(tokens) >= 1
-//@   modifies FileSyntax.Stmt, []Expr, LineBlock.Line, LineBlock.Token, []*Line, Line.Token, Line.InBlock
+//@   modifies FileSyntax.Stmt, []Expr, LineBlock.Line, LineBlock.Token, []*Line, Line.Token, Line.InBlock, ghost.SORTED
 //@   allocates
 //@   ensures result != nil && fresh(result)
 //@   ensures result.Token == (if result.InBlock then tokens[1:] else tokens)
@@ -53,7 +53,7 @@ package modfile
 //@   props C15 C08 C16
 //@ func (*FileSyntax).Cleanup
 //@   requires x != nil && (forall k int :: 0 <= k && k < len(x.Stmt) ==> STMT_OK(x.Stmt[k]))
-//@   modifies FileSyntax.Stmt, []Expr, LineBlock.Line, []*Line, Line.Token, Line.InBlock, Comments.Before, Comments.Suffix, Comments.After, Line.Start, Line.End, []string, []Comment
+//@   modifies FileSyntax.Stmt, []Expr, LineBlock.Line, []*Line, Line.Token, Line.InBlock, Comments.Before, Comments.Suffix, Comments.After, Line.Start, Line.End, []string, []Comment, ghost.SORTED
 //@   allocates
 //@   ensures [C15, C08] top_lines_unblocked: forall k int :: 0 <= k && k < len(x.Stmt) ==> STMT_OK(x.Stmt[k])
 //@   loop 0:
@@ -86,7 +86,7 @@ package modfile
 //@ func (*File).Cleanup
 //@   requires f != nil && f.Syntax != nil && NONNIL_REQ(f) && (forall k int :: 0 <= k && k < len(f.Syntax.Stmt) ==> STMT_OK(f.Syntax.Stmt[k]))
 //@   modifies File.Godebug, File.Require, File.Exclude, File.Replace, File.Retract, File.Tool, []*Godebug, []*Require, []*Exclude, []*Replace, []*Retract, []*Tool
-//@   modifies FileSyntax.Stmt, []Expr, LineBlock.Line, []*Line, Line.Token, Line.InBlock, Comments.Before, Comments.Suffix, Comments.After, Line.Start, Line.End, []string, []Comment
+//@   modifies FileSyntax.Stmt, []Expr, LineBlock.Line, []*Line, Line.Token, Line.InBlock, Comments.Before, Comments.Suffix, Comments.After, Line.Start, Line.End, []string, []Comment, ghost.SORTED
 //@   ensures [C15] clean_godebug: CLEAN_GODEBUG(f)
 //@   ensures [C15] clean_require: CLEAN_REQUIRE(f)
 //@   ensures [C15] clean_exclude: CLEAN_EXCLUDE(f)
@@ -136,7 +136,7 @@ package modfile
 //@ func (*WorkFile).Cleanup
 //@   requires f != nil && f.Syntax != nil && NONNILW(f) && (forall k int :: 0 <= k && k < len(f.Syntax.Stmt) ==> STMT_OK(f.Syntax.Stmt[k]))
 //@   modifies WorkFile.Godebug, WorkFile.Use, WorkFile.Replace, []*Godebug, []*Use, []*Replace
-//@   modifies FileSyntax.Stmt, []Expr, LineBlock.Line, []*Line, Line.Token, Line.InBlock, Comments.Before, Comments.Suffix, Comments.After, Line.Start, Line.End, []string, []Comment
+//@   modifies FileSyntax.Stmt, []Expr, LineBlock.Line, []*Line, Line.Token, Line.InBlock, Comments.Before, Comments.Suffix, Comments.After, Line.Start, Line.End, []string, []Comment, ghost.SORTED
 //@   ensures [C15] clean_use: CLEANW_USE(f)
 //@   ensures [C15] clean_replace: CLEANW_REPLACE(f)
 //@   ensures [C15] clean_godebug: CLEANW_GODEBUG(f)
@@ -175,7 +175,7 @@ package modfile
 //@ func (*File).AddRetract
 //@   requires f != nil && f.Syntax != nil && (f.Module != nil ==> true)
 //@   modifies File.Retract, []*Retract
-//@   modifies FileSyntax.Stmt, []Expr, LineBlock.Line, LineBlock.Token, []*Line, Line.Token, Line.InBlock, Comments.Before, []Comment
+//@   modifies FileSyntax.Stmt, []Expr, LineBlock.Line, LineBlock.Token, []*Line, Line.Token, Line.InBlock, Comments.Before, []Comment, ghost.SORTED
 //@   ensures [C15, C08] recorded: result == nil ==> len(f.Retract) == old(len(f.Retract)) + 1
 //@             && f.Retract[len(f.Retract)-1] != nil && f.Retract[len(f.Retract)-1].Low == vi.Low && f.Retract[len(f.Retract)-1].High == vi.High
 //@             && f.Retract[len(f.Retract)-1].Rationale == rationale && f.Retract[len(f.Retract)-1].Syntax != nil
@@ -200,7 +200,7 @@ package modfile
 //@ func addReplace
 //@   requires syntax != nil && replace != nil && REPLACE_WF(*replace) && oldVers != "=>" && oldPath != ""
 //@   modifies *[]*Replace, []*Replace, Replace.Old, Replace.New, Replace.Syntax, module.Version.Path, module.Version.Version
-//@   modifies FileSyntax.Stmt, []Expr, LineBlock.Line, LineBlock.Token, []*Line, Line.Token, Line.InBlock, Comments.Suffix
+//@   modifies FileSyntax.Stmt, []Expr, LineBlock.Line, LineBlock.Token, []*Line, Line.Token, Line.InBlock, Comments.Suffix, ghost.SORTED
 //@   # when an existing directive is updated (no line is added), every live entry still agrees with its line
 //@   ensures [C15, C08] updated_agrees: (exists i int :: 0 <= i && i < len(old(*replace)) && old((*replace)[i].Old.Path) == oldPath && (oldVers == "" || old((*replace)[i].Old.Version) == oldVers))
 //@             ==> (forall i int :: 0 <= i && i < len(*replace) && (*replace)[i].Old.Path != "" ==> OLDVER_OK((*replace)[i]))
@@ -219,14 +219,14 @@ package modfile
 //@   trusted "sort.SliceStable over syntax blocks plus removeDups on replace directives; does not touch the use list"
 //@   requires f != nil
 //@   modifies WorkFile.Replace, []*Replace, Replace.Old, Replace.New, Replace.Syntax, module.Version.Path, module.Version.Version
-//@   modifies FileSyntax.Stmt, []Expr, LineBlock.Line, []*Line, Line.Token, Line.InBlock, Comments.Suffix
+//@   modifies FileSyntax.Stmt, []Expr, LineBlock.Line, []*Line, Line.Token, Line.InBlock, Comments.Suffix, ghost.SORTED
 //@   allocates
 //@   props C16 C15
 
 //@ func (*WorkFile).AddNewUse
 //@   requires f != nil && f.Syntax != nil
 //@   modifies WorkFile.Use, []*Use
-//@   modifies FileSyntax.Stmt, []Expr, LineBlock.Line, LineBlock.Token, []*Line, Line.Token, Line.InBlock
+//@   modifies FileSyntax.Stmt, []Expr, LineBlock.Line, LineBlock.Token, []*Line, Line.Token, Line.InBlock, ghost.SORTED
 //@   ensures len(f.Use) == old(len(f.Use)) + 1
 //@   ensures f.Use[len(f.Use)-1] != nil && fresh(f.Use[len(f.Use)-1]) && f.Use[len(f.Use)-1].Path == diskPath && f.Use[len(f.Use)-1].ModulePath == modulePath && f.Use[len(f.Use)-1].Syntax != nil
 //@   ensures forall i int :: 0 <= i && i < old(len(f.Use)) ==> f.Use[i] == old(f.Use[i])
@@ -410,7 +410,7 @@ package modfile
 //@ func (*WorkFile).AddUse
 //@   requires f != nil && f.Syntax != nil && USE_NONNIL(f) && USE_LINES_DISTINCT(f) && diskPath != ""
 //@   modifies WorkFile.Use, []*Use, Use.Path, Use.ModulePath, Use.Syntax, Line.Token, Comments.Suffix
-//@   modifies FileSyntax.Stmt, []Expr, LineBlock.Line, LineBlock.Token, []*Line, Line.InBlock
+//@   modifies FileSyntax.Stmt, []Expr, LineBlock.Line, LineBlock.Token, []*Line, Line.InBlock, ghost.SORTED
 //@   ensures result == nil
 //@   ensures [C08, C15] first_updated: forall i int :: 0 <= i && i < old(len(f.Use)) && old(f.Use[i].Path) == diskPath && (forall j int :: 0 <= j && j < i ==> old(f.Use[j].Path) != diskPath)
 //@             ==> f.Use[i].Path == diskPath && f.Use[i].ModulePath == modulePath && f.Use[i].Syntax == old(f.Use[i].Syntax) && TOK1(f.Use[i].Syntax, "use", AutoQuote(diskPath))
@@ -443,7 +443,7 @@ package modfile
 //@ func (*File).addNewGodebug
 //@   requires f != nil && f.Syntax != nil
 //@   modifies File.Godebug, []*Godebug
-//@   modifies FileSyntax.Stmt, []Expr, LineBlock.Line, LineBlock.Token, []*Line, Line.Token, Line.InBlock
+//@   modifies FileSyntax.Stmt, []Expr, LineBlock.Line, LineBlock.Token, []*Line, Line.Token, Line.InBlock, ghost.SORTED
 //@   ensures len(f.Godebug) == old(len(f.Godebug)) + 1
 //@   ensures [C08, C15] appended: f.Godebug[len(f.Godebug)-1] != nil && fresh(f.Godebug[len(f.Godebug)-1]) && f.Godebug[len(f.Godebug)-1].Key == key && f.Godebug[len(f.Godebug)-1].Value == value && TOK1(f.Godebug[len(f.Godebug)-1].Syntax, "godebug", key + "=" + value)
 //@   ensures forall i int :: 0 <= i && i < old(len(f.Godebug)) ==> f.Godebug[i] == old(f.Godebug[i])
@@ -453,7 +453,7 @@ package modfile
 //@ func (*File).AddGodebug
 //@   requires f != nil && f.Syntax != nil && GD_NONNIL(f) && GD_LINES_DISTINCT(f) && key != ""
 //@   modifies File.Godebug, []*Godebug, Godebug.Key, Godebug.Value, Godebug.Syntax, Line.Token, Comments.Suffix
-//@   modifies FileSyntax.Stmt, []Expr, LineBlock.Line, LineBlock.Token, []*Line, Line.InBlock
+//@   modifies FileSyntax.Stmt, []Expr, LineBlock.Line, LineBlock.Token, []*Line, Line.InBlock, ghost.SORTED
 //@   ensures result == nil
 //@   ensures [C08, C15] first_updated: forall i int :: 0 <= i && i < old(len(f.Godebug)) && old(f.Godebug[i].Key) == key && (forall j int :: 0 <= j && j < i ==> old(f.Godebug[j].Key) != key)
 //@             ==> f.Godebug[i].Key == key && f.Godebug[i].Value == value && f.Godebug[i].Syntax == old(f.Godebug[i].Syntax) && TOK1(f.Godebug[i].Syntax, "godebug", key + "=" + value)
@@ -486,7 +486,7 @@ package modfile
 //@ func (*WorkFile).addNewGodebug
 //@   requires f != nil && f.Syntax != nil
 //@   modifies WorkFile.Godebug, []*Godebug
-//@   modifies FileSyntax.Stmt, []Expr, LineBlock.Line, LineBlock.Token, []*Line, Line.Token, Line.InBlock
+//@   modifies FileSyntax.Stmt, []Expr, LineBlock.Line, LineBlock.Token, []*Line, Line.Token, Line.InBlock, ghost.SORTED
 //@   ensures len(f.Godebug) == old(len(f.Godebug)) + 1
 //@   ensures [C08, C15] appended: f.Godebug[len(f.Godebug)-1] != nil && fresh(f.Godebug[len(f.Godebug)-1]) && f.Godebug[len(f.Godebug)-1].Key == key && f.Godebug[len(f.Godebug)-1].Value == value && TOK1(f.Godebug[len(f.Godebug)-1].Syntax, "godebug", key + "=" + value)
 //@   ensures forall i int :: 0 <= i && i < old(len(f.Godebug)) ==> f.Godebug[i] == old(f.Godebug[i])
@@ -496,7 +496,7 @@ package modfile
 //@ func (*WorkFile).AddGodebug
 //@   requires f != nil && f.Syntax != nil && GDW_NONNIL(f) && GDW_LINES_DISTINCT(f) && key != ""
 //@   modifies WorkFile.Godebug, []*Godebug, Godebug.Key, Godebug.Value, Godebug.Syntax, Line.Token, Comments.Suffix
-//@   modifies FileSyntax.Stmt, []Expr, LineBlock.Line, LineBlock.Token, []*Line, Line.InBlock
+//@   modifies FileSyntax.Stmt, []Expr, LineBlock.Line, LineBlock.Token, []*Line, Line.InBlock, ghost.SORTED
 //@   ensures result == nil
 //@   ensures [C08, C15] first_updated: forall i int :: 0 <= i && i < old(len(f.Godebug)) && old(f.Godebug[i].Key) == key && (forall j int :: 0 <= j && j < i ==> old(f.Godebug[j].Key) != key)
 //@             ==> f.Godebug[i].Key == key && f.Godebug[i].Value == value && f.Godebug[i].Syntax == old(f.Godebug[i].Syntax) && TOK1(f.Godebug[i].Syntax, "godebug", key + "=" + value)
@@ -529,7 +529,7 @@ package modfile
 //@   modifies Require.Indirect, Comments.Suffix, []Comment, Comment.Token
 //@   allocates
 //@   ensures r.Indirect == indirect
-//@   ensures forall q *Require :: q != r ==> q.Indirect == old(q.Indirect)
+//@   ensures forall q *Require {q.Indirect} :: q != r ==> q.Indirect == old(q.Indirect)
 //@   props C08 C15 C16
 
 //@ spec macro RQ_NONNIL(f *File) bool = (forall i int :: 0 <= i && i < len(f.Require) ==> f.Require[i] != nil && (f.Require[i].Mod.Path != "" ==> f.Require[i].Syntax != nil))
@@ -540,19 +540,20 @@ package modfile
 //@ func (*File).AddNewRequire
 //@   requires f != nil && f.Syntax != nil
 //@   modifies File.Require, []*Require, Require.Indirect, Comments.Suffix, []Comment, Comment.Token
-//@   modifies FileSyntax.Stmt, []Expr, LineBlock.Line, LineBlock.Token, []*Line, Line.Token, Line.InBlock
+//@   modifies FileSyntax.Stmt, []Expr, LineBlock.Line, LineBlock.Token, []*Line, Line.Token, Line.InBlock, ghost.SORTED
 //@   ensures len(f.Require) == old(len(f.Require)) + 1
 //@   ensures [C08, C15] appended: f.Require[len(f.Require)-1] != nil && fresh(f.Require[len(f.Require)-1]) && f.Require[len(f.Require)-1].Mod.Path == path && f.Require[len(f.Require)-1].Mod.Version == vers
 //@             && f.Require[len(f.Require)-1].Indirect == indirect && TOK2(f.Require[len(f.Require)-1].Syntax, "require", AutoQuote(path), vers)
-//@   ensures forall i int :: 0 <= i && i < old(len(f.Require)) ==> f.Require[i] == old(f.Require[i])
-//@   ensures forall q *Require :: !fresh(q) ==> q.Indirect == old(q.Indirect)
+//@   ensures forall i int :: 0 <= i && i < old(len(f.Require)) ==> f.Require[i] == old(f.Require[i]) && !fresh(f.Require[i])
+//@   ensures forall i int :: 0 <= i && i < old(len(f.Require)) ==> f.Require[i].Mod.Path == old(f.Require[i].Mod.Path) && f.Require[i].Mod.Version == old(f.Require[i].Mod.Version) && f.Require[i].Syntax == old(f.Require[i].Syntax) && f.Require[i].Indirect == old(f.Require[i].Indirect)
+//@   ensures forall q *Require {q.Indirect} :: !fresh(q) ==> q.Indirect == old(q.Indirect)
 //@   ensures framearr(old(f.Require))
 //@   props C08 C15 C16
 
 //@ func (*File).AddRequire
 //@   requires f != nil && f.Syntax != nil && RQ_NONNIL(f) && RQ_LINES_DISTINCT(f) && path != ""
 //@   modifies File.Require, []*Require, Require.Mod, Require.Indirect, Require.Syntax, module.Version.Path, module.Version.Version, Line.Token, Comments.Suffix, []Comment, Comment.Token
-//@   modifies FileSyntax.Stmt, []Expr, LineBlock.Line, LineBlock.Token, []*Line, Line.InBlock
+//@   modifies FileSyntax.Stmt, []Expr, LineBlock.Line, LineBlock.Token, []*Line, Line.InBlock, ghost.SORTED
 //@   ensures result == nil
 //@   ensures [C08, C15] first_updated: forall i int :: 0 <= i && i < old(len(f.Require)) && old(f.Require[i].Mod.Path) == path && (forall j int :: 0 <= j && j < i ==> old(f.Require[j].Mod.Path) != path)
 //@             ==> f.Require[i].Mod.Path == path && f.Require[i].Mod.Version == vers && f.Require[i].Syntax == old(f.Require[i].Syntax) && TOK2(f.Require[i].Syntax, "require", AutoQuote(path), vers)
@@ -583,7 +584,7 @@ package modfile
 //@ func (*File).AddExclude
 //@   requires f != nil && f.Syntax != nil && EX_NONNIL(f)
 //@   modifies File.Exclude, []*Exclude
-//@   modifies FileSyntax.Stmt, []Expr, LineBlock.Line, LineBlock.Token, []*Line, Line.Token, Line.InBlock
+//@   modifies FileSyntax.Stmt, []Expr, LineBlock.Line, LineBlock.Token, []*Line, Line.Token, Line.InBlock, ghost.SORTED
 //@   ensures [C08, C15] idempotent: (exists i int :: 0 <= i && i < old(len(f.Exclude)) && old(f.Exclude[i].Mod.Path) == path && old(f.Exclude[i].Mod.Version) == vers) ==> len(f.Exclude) == old(len(f.Exclude))
 //@   ensures [C08, C15] rejected_unchanged: result != nil ==> len(f.Exclude) == old(len(f.Exclude))
 //@   ensures [C08, C15] appended: result == nil && !(exists i int :: 0 <= i && i < old(len(f.Exclude)) && old(f.Exclude[i].Mod.Path) == path && old(f.Exclude[i].Mod.Version) == vers)
@@ -621,7 +622,7 @@ package modfile
 //@ func (*File).AddGoStmt
 //@   requires f != nil && (f.Go != nil ==> f.Go.Syntax != nil && f.Syntax != nil) && (f.Module != nil && f.Module.Syntax != nil ==> f.Syntax != nil)
 //@   modifies File.Go, File.Syntax, Go.Version, Go.Syntax, Line.Token
-//@   modifies FileSyntax.Stmt, []Expr, LineBlock.Line, LineBlock.Token, []*Line, Line.InBlock
+//@   modifies FileSyntax.Stmt, []Expr, LineBlock.Line, LineBlock.Token, []*Line, Line.InBlock, ghost.SORTED
 //@   ensures [C08, C15] rejected_unchanged: result != nil ==> f.Go == old(f.Go)
 //@   ensures [C08, C15] set: result == nil ==> f.Go != nil && f.Go.Version == version && TOK1(f.Go.Syntax, "go", version)
 //@   ensures [C08, C15] updated_in_place: result == nil && old(f.Go) != nil ==> f.Go == old(f.Go) && f.Go.Syntax == old(f.Go.Syntax)
@@ -629,7 +630,7 @@ package modfile
 //@ func (*File).AddToolchainStmt
 //@   requires f != nil && f.Syntax != nil && (f.Toolchain != nil ==> f.Toolchain.Syntax != nil)
 //@   modifies File.Toolchain, Toolchain.Name, Toolchain.Syntax, Line.Token
-//@   modifies FileSyntax.Stmt, []Expr, LineBlock.Line, LineBlock.Token, []*Line, Line.InBlock
+//@   modifies FileSyntax.Stmt, []Expr, LineBlock.Line, LineBlock.Token, []*Line, Line.InBlock, ghost.SORTED
 //@   ensures [C08, C15] rejected_unchanged: result != nil ==> f.Toolchain == old(f.Toolchain)
 //@   ensures [C08, C15] set: result == nil ==> f.Toolchain != nil && f.Toolchain.Name == name && TOK1(f.Toolchain.Syntax, "toolchain", name)
 //@   ensures [C08, C15] updated_in_place: result == nil && old(f.Toolchain) != nil ==> f.Toolchain == old(f.Toolchain) && f.Toolchain.Syntax == old(f.Toolchain.Syntax)
@@ -637,7 +638,7 @@ package modfile
 //@ func (*File).AddModuleStmt
 //@   requires f != nil && (f.Module != nil ==> f.Module.Syntax != nil)
 //@   modifies File.Module, File.Syntax, Module.Mod, Module.Syntax, module.Version.Path, Line.Token
-//@   modifies FileSyntax.Stmt, []Expr, LineBlock.Line, LineBlock.Token, []*Line, Line.InBlock
+//@   modifies FileSyntax.Stmt, []Expr, LineBlock.Line, LineBlock.Token, []*Line, Line.InBlock, ghost.SORTED
 //@   ensures [C08, C15] set: result == nil && f.Module != nil && f.Module.Mod.Path == path && TOK1(f.Module.Syntax, "module", AutoQuote(path))
 //@   ensures [C08, C15] updated_in_place: old(f.Module) != nil ==> f.Module == old(f.Module) && f.Module.Syntax == old(f.Module.Syntax)
 //@   props C08 C15
@@ -645,7 +646,7 @@ package modfile
 //@ # go.work: new go / toolchain statements are spliced into the statement list; every statement that was there stays, in order
 //@ func (*WorkFile).AddGoStmt
 //@   requires f != nil && f.Syntax != nil && (f.Go != nil ==> f.Go.Syntax != nil)
-//@   modifies WorkFile.Go, Go.Version, Go.Syntax, Line.Token, FileSyntax.Stmt, []Expr
+//@   modifies WorkFile.Go, Go.Version, Go.Syntax, Line.Token, FileSyntax.Stmt, []Expr, ghost.SORTED
 //@   ensures [C08, C15] rejected_unchanged: result != nil ==> f.Go == old(f.Go) && len(f.Syntax.Stmt) == old(len(f.Syntax.Stmt))
 //@   ensures [C08, C15] set: result == nil ==> f.Go != nil && f.Go.Version == version && TOK1(f.Go.Syntax, "go", version)
 //@   ensures [C08, C15] updated_in_place: result == nil && old(f.Go) != nil ==> f.Go == old(f.Go) && f.Go.Syntax == old(f.Go.Syntax) && len(f.Syntax.Stmt) == old(len(f.Syntax.Stmt))
@@ -661,7 +662,7 @@ package modfile
 //@ func (*WorkFile).AddToolchainStmt
 //@   requires f != nil && f.Syntax != nil && (f.Toolchain != nil ==> f.Toolchain.Syntax != nil)
 //@   requires forall k int :: 0 <= k && k < len(f.Syntax.Stmt) ==> (ISLINE(f.Syntax.Stmt[k]) ==> ifaceptr(f.Syntax.Stmt[k]) != 0)
-//@   modifies WorkFile.Toolchain, Toolchain.Name, Toolchain.Syntax, Line.Token, FileSyntax.Stmt, []Expr
+//@   modifies WorkFile.Toolchain, Toolchain.Name, Toolchain.Syntax, Line.Token, FileSyntax.Stmt, []Expr, ghost.SORTED
 //@   ensures [C08, C15] rejected_unchanged: result != nil ==> f.Toolchain == old(f.Toolchain) && len(f.Syntax.Stmt) == old(len(f.Syntax.Stmt))
 //@   ensures [C08, C15] set: result == nil ==> f.Toolchain != nil && f.Toolchain.Name == name && TOK1(f.Toolchain.Syntax, "toolchain", name)
 //@   ensures [C08, C15] updated_in_place: result == nil && old(f.Toolchain) != nil ==> f.Toolchain == old(f.Toolchain) && f.Toolchain.Syntax == old(f.Toolchain.Syntax) && len(f.Syntax.Stmt) == old(len(f.Syntax.Stmt))
@@ -907,7 +908,7 @@ package modfile
 //@ func (*input).parseStmt
 //@   requires PARSEST(in) && in.file != nil && in.token.kind != 0 - 1
 //@   modifies input.remaining, input.pos, Position.Line, Position.LineRune, Position.Byte, input.tokenStart, input.token, token.kind, token.text, token.pos, token.endPos
-//@   modifies input.comments, []Comment, input.parseErrors, []Error, Comments.Before, []*Line, FileSyntax.Stmt, []Expr
+//@   modifies input.comments, []Comment, input.parseErrors, []Error, Comments.Before, []*Line, FileSyntax.Stmt, []Expr, ghost.SORTED
 //@   allocates
 //@   ensures [C20] state_kept: PARSEST(in) && in.complete == old(in.complete) && in.file == old(in.file)
 //@   ensures [C20] one_statement_added: len(in.file.Stmt) == old(len(in.file.Stmt)) + 1 && (forall k int :: 0 <= k && k < old(len(in.file.Stmt)) ==> in.file.Stmt[k] == old(in.file.Stmt[k]))
@@ -932,7 +933,7 @@ package modfile
 //@ func (*input).parseFile
 //@   requires PARSEST(in)
 //@   modifies input.file, input.remaining, input.pos, Position.Line, Position.LineRune, Position.Byte, input.tokenStart, input.token, token.kind, token.text, token.pos, token.endPos
-//@   modifies input.comments, []Comment, input.parseErrors, []Error, Comments.Before, []*Line, FileSyntax.Stmt, []Expr
+//@   modifies input.comments, []Comment, input.parseErrors, []Error, Comments.Before, []*Line, FileSyntax.Stmt, []Expr, ghost.SORTED
 //@   allocates
 //@   ensures [C20] state_kept: PARSEST(in) && in.complete == old(in.complete)
 //@   ensures [C20] whole_input_consumed: in.token.kind == 0 - 1 && len(in.remaining) == 0
@@ -983,3 +984,100 @@ package modfile
 //@     invariant 0 - 1 <= @idx && @idx < len(x.Line) && x != nil && f != nil && fs != nil && len(x.Token) == 1 && fs.Stmt == STMTS
 //@     invariant forall k int :: 0 <= k && k < len(fs.Stmt) ==> STMTTOK(fs.Stmt[k])
 //@   props C20
+
+//@ # ====================== bulk setters and block order (C16) ======================
+//@ func (*File).removeDups
+//@   trusted "duplicate exclude/replace/tool directives are dropped from the typed lists and the syntax tree (nine loops over pointer-keyed maps); here only its frame"
+//@   requires f != nil
+//@   modifies File.Exclude, File.Replace, File.Tool, []*Exclude, []*Replace, []*Tool, FileSyntax.Stmt, []Expr, LineBlock.Line, []*Line, ghost.SORTED
+//@   allocates
+//@   ensures f.Syntax == old(f.Syntax) && f.Go == old(f.Go)
+//@   ensures forall k int :: 0 <= k && k < len(f.Syntax.Stmt) ==> (ISBLOCK(f.Syntax.Stmt[k]) ==> ifaceptr(f.Syntax.Stmt[k]) != 0 && len(ifaceptr(f.Syntax.Stmt[k], "*LineBlock").Token) >= 1)
+//@   props C16 C08
+
+//@ # SortBlocks: every block is sorted with the comparator the documentation prescribes: lexical by tokens, excludes by
+//@ # path then semantic version from go 1.21 on, retractions by their own order
+//@ func (*File).SortBlocks
+//@   requires f != nil && f.Syntax != nil
+//@   modifies File.Exclude, File.Replace, File.Tool, []*Exclude, []*Replace, []*Tool, FileSyntax.Stmt, []Expr, LineBlock.Line, []*Line, ghost.SORTED
+//@   allocates
+//@   call sort.SliceStable requires [C16] documented_comparator:
+//@        less == (if block.Token[0] == "exclude" && f.Go != nil && semver.Compare("v" + f.Go.Version, "v1.21") >= 0 then fn("modfile.lineExcludeLess")
+//@                 else if block.Token[0] == "retract" then fn("modfile.lineRetractLess") else fn("modfile.lineLess"))
+//@   ensures_assumed "sort.SliceStable orders each block by the comparator it is given (library behaviour); that every block is visited with the documented comparator is verified here" SORTED[f.Syntax]
+//@   ensures f.Syntax == old(f.Syntax)
+//@   loop 0:
+//@     invariant 0 - 1 <= @idx && @idx < len(f.Syntax.Stmt) && f.Syntax != nil && f.Syntax.Stmt == pre(f.Syntax.Stmt)
+//@     invariant forall k int :: 0 <= k && k < len(f.Syntax.Stmt) ==> (ISBLOCK(f.Syntax.Stmt[k]) ==> ifaceptr(f.Syntax.Stmt[k]) != 0 && len(ifaceptr(f.Syntax.Stmt[k], "*LineBlock").Token) >= 1)
+//@     decreases len(f.Syntax.Stmt) - @idx
+//@   props C16 C08
+
+//@ # setVersion: the entry's version and the version token of its line change together; nothing else of the entry does
+//@ func (*Require).setVersion
+//@   requires r != nil && r.Syntax != nil
+//@   modifies module.Version.Version, []string, Comments.Before, ghost.SORTED
+//@   ensures [C16, C08] entry_version: r.Mod.Version == v && r.Mod.Path == old(r.Mod.Path) && r.Syntax == old(r.Syntax) && r.Indirect == old(r.Indirect)
+//@   ensures [C16, C08] line_version: len(r.Syntax.Token) == old(len(r.Syntax.Token)) && (r.Syntax.InBlock && len(r.Syntax.Token) >= 2 ==> r.Syntax.Token[1] == v) && (!r.Syntax.InBlock && len(r.Syntax.Token) >= 3 ==> r.Syntax.Token[2] == v)
+//@   ensures forall q *Require {q.Mod.Version} :: q != r ==> q.Mod.Version == old(q.Mod.Version)
+//@   props C16 C08
+
+//@ func (*Require).markRemoved
+//@   requires r != nil
+//@   modifies Require.Indirect, Require.Syntax, module.Version.Path, module.Version.Version, Line.Token, Comments.Suffix
+//@   ensures r.Mod.Path == "" && r.Mod.Version == "" && r.Syntax == nil && !r.Indirect
+//@   ensures forall q *Require {q.Mod.Path} :: q != r ==> q.Mod.Path == old(q.Mod.Path)
+//@   ensures forall q *Require {q.Mod.Version} :: q != r ==> q.Mod.Version == old(q.Mod.Version)
+//@   ensures forall q *Require {q.Indirect} :: q != r ==> q.Indirect == old(q.Indirect)
+//@   ensures forall q *Require {q.Syntax} :: q != r ==> q.Syntax == old(q.Syntax)
+//@   props C16 C08
+
+//@ spec macro RQREQ(req []*Require, k string) bool = exists d int :: 0 <= d && d < len(req) && req[d].Mod.Path == k
+//@ spec macro RQREQV(req []*Require, k string, v string, ind bool) bool = exists d int :: 0 <= d && d < len(req) && req[d].Mod.Path == k && req[d].Mod.Version == v && req[d].Indirect == ind
+//@ spec macro RQ_DISTINCT(f *File) bool =
+//@     forall i int, j int :: 0 <= i && i < j && j < len(f.Require) && f.Require[i].Mod.Path != "" && f.Require[j].Mod.Path != "" ==> f.Require[i].Mod.Path != f.Require[j].Mod.Path
+
+//@ # SetRequire: afterwards exactly one live require per requested path, with the requested version and indirect flag,
+//@ # none for any other path, and the blocks have been sorted
+//@ func (*File).SetRequire
+//@   requires f != nil && f.Syntax != nil && RQ_NONNIL(f)
+//@   requires forall d int :: 0 <= d && d < len(req) ==> req[d] != nil && req[d].Mod.Path != ""
+//@   requires forall d int, e int :: 0 <= d && d < e && e < len(req) ==> req[d].Mod.Path != req[e].Mod.Path
+//@   requires forall d int, i int :: 0 <= d && d < len(req) && 0 <= i && i < len(f.Require) ==> req[d] != f.Require[i]
+//@   requires !samearr(req, f.Require)
+//@   modifies *
+//@   call (*Require).setVersion requires [C16] requested_version: has(need, arg_r.Mod.Path) && arg_v == need[arg_r.Mod.Path].version
+//@   call (*Require).setIndirect requires [C16] requested_marking: has(need, arg_r.Mod.Path) && arg_indirect == need[arg_r.Mod.Path].indirect
+//@   call (*Require).markRemoved requires [C16] only_unrequested_removed: !has(need, arg_r.Mod.Path)
+//@   ensures [C16] one_per_path: RQ_DISTINCT(f)
+//@   ensures [C16] all_requested: forall d int :: 0 <= d && d < len(req) ==> (exists i int :: 0 <= i && i < len(f.Require) && f.Require[i].Mod.Path == old(req[d].Mod.Path) && f.Require[i].Mod.Version == old(req[d].Mod.Version) && f.Require[i].Indirect == old(req[d].Indirect))
+//@   ensures [C16] only_requested: forall i int :: 0 <= i && i < len(f.Require) && f.Require[i].Mod.Path != "" ==> (exists d int :: 0 <= d && d < len(req) && old(req[d].Mod.Path) == f.Require[i].Mod.Path)
+//@   ensures [C16] blocks_sorted: SORTED[f.Syntax]
+//@   loop 0:
+//@     invariant 0 - 1 <= @idx && @idx < len(req) && need != nil
+//@     invariant forall k string :: has(need, k) ==> RQREQV(req, k, need[k].version, need[k].indirect)
+//@     invariant forall d int :: 0 <= d && d <= @idx ==> has(need, req[d].Mod.Path) && need[req[d].Mod.Path].version == req[d].Mod.Version && need[req[d].Mod.Path].indirect == req[d].Indirect
+//@     decreases len(req) - @idx
+//@   loop 1:
+//@     invariant 0 - 1 <= @idx && @idx < len(f.Require) && need != nil && f.Require == pre(f.Require) && RQ_NONNIL(f) && f.Syntax != nil
+//@     invariant forall d int :: 0 <= d && d < len(req) ==> req[d] == old(req[d]) && req[d].Mod.Path == old(req[d].Mod.Path) && req[d].Mod.Version == old(req[d].Mod.Version) && req[d].Indirect == old(req[d].Indirect)
+//@     invariant forall d int, i int :: 0 <= d && d < len(req) && 0 <= i && i < len(f.Require) ==> req[d] != f.Require[i]
+//@     invariant forall k string :: has(need, k) ==> RQREQV(req, k, need[k].version, need[k].indirect)
+//@     invariant forall i int :: 0 <= i && i <= @idx && f.Require[i].Mod.Path != "" ==> RQREQV(req, f.Require[i].Mod.Path, f.Require[i].Mod.Version, f.Require[i].Indirect) && !has(need, f.Require[i].Mod.Path)
+//@     invariant forall i int, j int :: 0 <= i && i < j && j <= @idx && f.Require[i].Mod.Path != "" && f.Require[j].Mod.Path != "" ==> f.Require[i].Mod.Path != f.Require[j].Mod.Path
+//@     invariant forall d int :: 0 <= d && d < len(req) ==> (has(need, req[d].Mod.Path) && need[req[d].Mod.Path].version == req[d].Mod.Version && need[req[d].Mod.Path].indirect == req[d].Indirect) || (exists i int :: 0 <= i && i <= @idx && f.Require[i].Mod.Path == req[d].Mod.Path && f.Require[i].Mod.Version == req[d].Mod.Version && f.Require[i].Indirect == req[d].Indirect)
+//@     decreases len(f.Require) - @idx
+//@   let NL = len(f.Require) @before loop 2
+//@   loop 2:
+//@     invariant need != nil && RQ_NONNIL(f) && f.Syntax != nil && !samearr(req, f.Require) && NL <= len(f.Require)
+//@     invariant forall k string :: has(need, k) ==> RQREQV(req, k, need[k].version, need[k].indirect)
+//@     invariant forall d int :: 0 <= d && d < len(req) ==> req[d] == old(req[d]) && req[d] != nil && !fresh(req[d]) && req[d].Mod.Path == old(req[d].Mod.Path) && req[d].Mod.Version == old(req[d].Mod.Version) && req[d].Indirect == old(req[d].Indirect) && req[d].Mod.Path != ""
+//@     # entries that were there before the loop: requested, no longer needed, pairwise distinct
+//@     invariant forall i int :: 0 <= i && i < NL && f.Require[i].Mod.Path != "" ==> RQREQV(req, f.Require[i].Mod.Path, f.Require[i].Mod.Version, f.Require[i].Indirect) && !has(need, f.Require[i].Mod.Path)
+//@     invariant forall i int, j int :: 0 <= i && i < j && j < NL && f.Require[i].Mod.Path != "" && f.Require[j].Mod.Path != "" ==> f.Require[i].Mod.Path != f.Require[j].Mod.Path
+//@     # entries added by the loop: one per visited key, with the values recorded for it
+//@     invariant forall i int :: NL <= i && i < len(f.Require) ==> has(need, f.Require[i].Mod.Path) && visited(f.Require[i].Mod.Path) && f.Require[i].Mod.Version == need[f.Require[i].Mod.Path].version && f.Require[i].Indirect == need[f.Require[i].Mod.Path].indirect
+//@     invariant forall i int, j int :: NL <= i && i < j && j < len(f.Require) ==> f.Require[i].Mod.Path != f.Require[j].Mod.Path
+//@     invariant forall k string :: has(need, k) && visited(k) ==> (exists i int :: NL <= i && i < len(f.Require) && f.Require[i].Mod.Path == k)
+//@     # every request is already served by an old entry or is still in need
+//@     invariant forall d int :: 0 <= d && d < len(req) ==> (has(need, req[d].Mod.Path) && need[req[d].Mod.Path].version == req[d].Mod.Version && need[req[d].Mod.Path].indirect == req[d].Indirect) || (exists i int :: 0 <= i && i < NL && f.Require[i].Mod.Path == req[d].Mod.Path && f.Require[i].Mod.Version == req[d].Mod.Version && f.Require[i].Indirect == req[d].Indirect)
+//@   props C16
